@@ -239,7 +239,8 @@ func (d *drv) observe(code int, newID string) []string {
 	row := []string{fmt.Sprint(code), newID, d.rel(ctx.BlockTime())}
 	row = append(row, app.BankKeeper.GetSupply(ctx, d.bond).Amount.String(),
 		app.BankKeeper.GetSupplyOffset(ctx, d.bond).String(),
-		app.BankKeeper.GetSupplyWithOffset(ctx, d.bond).Amount.String())
+		app.BankKeeper.GetSupplyWithOffset(ctx, d.bond).Amount.String(),
+		app.BankKeeper.GetBalance(ctx, app.AccountKeeper.GetModuleAddress(stakingtypes.BondedPoolName), d.bond).Amount.String())
 	for i, dn := range d.denoms {
 		row = append(row, app.SuperfluidKeeper.GetOsmoEquivalentMultiplier(ctx, dn).BigInt().String())
 		a, b := d.poolInputs(ctx, i)
@@ -460,6 +461,9 @@ func (d *drv) setupValidator(i int) sdk.ValAddress {
 	if err := h.App.StakingKeeper.SetValidator(h.Ctx, val); err != nil {
 		panic(err)
 	}
+	// CreateValidator leaves the self-bond in the not-bonded pool and UpdateStatus only flips the flag: give the bonded pool the
+	// matching coins, so that bonded pool balance = sum of bonded validators' tokens (a slash burns from the bonded pool)
+	h.FundModuleAcc(stakingtypes.BondedPoolName, selfBond)
 	consAddr, err := val.GetConsAddr()
 	if err != nil {
 		panic(err)
